@@ -234,6 +234,13 @@ func (s *SFTPStore) Prune(ctx context.Context, ids map[ChunkID]struct{}) error {
 			continue
 		}
 		path := walker.Path()
+		// Remove temporary files an interrupted StoreChunk left behind
+		if c.isTempChunkFile(filepath.Base(path)) {
+			if err := c.client.Remove(path); err != nil {
+				return err
+			}
+			continue
+		}
 		// Skip compressed chunks if this is running in uncompressed mode and vice-versa
 		var sID string
 		if c.opt.Uncompressed {
@@ -262,6 +269,28 @@ func (s *SFTPStore) Prune(ctx context.Context, ids map[ChunkID]struct{}) error {
 		}
 	}
 	return nil
+}
+
+// isTempChunkFile returns true if name looks like a tempfile StoreObject creates
+// for a chunk of this store's format, that is the chunk's file name followed
+// by a random number.
+func (s *SFTPStoreBase) isTempChunkFile(name string) bool {
+	ext := CompressedChunkExt
+	if s.opt.Uncompressed {
+		ext = UncompressedChunkExt
+	}
+	if len(name) <= 64+len(ext) || name[64:64+len(ext)] != ext {
+		return false
+	}
+	if _, err := ChunkIDFromString(name[:64]); err != nil {
+		return false
+	}
+	for _, c := range name[64+len(ext):] {
+		if c < '0' || c > '9' {
+			return false
+		}
+	}
+	return true
 }
 
 // Close terminates all client connections
